@@ -123,6 +123,54 @@ func c01Script(c *vf.Case, w *sim.World, lostKeyPrefix string) {
 			c.Logf("  peer of %s writes 3 bytes (%d taken)", o, got)
 		}
 	}
+	// One script in three opens with a constructed batch: a victim with a read (no data: deferred) and a write
+	// (registered at the dispatch limit, ready at once) both in flight, and another object whose handler cancels,
+	// closes or cancel-restarts the victim, made ready so that both sit in the same epoll batch - in either order.
+	if r.Chance(1, 3) {
+		victim := pickOpen(func(o *sim.Obj) bool {
+			return o.Kind == sim.KConnDialed || o.Kind == sim.KConnAccepted || o.Kind == sim.KAdapter
+		})
+		var killer *sim.Obj
+		if victim != nil {
+			killer = pickOpen(func(o *sim.Obj) bool {
+				return o != victim && (o.Kind == sim.KConnDialed || o.Kind == sim.KConnAccepted || o.Kind == sim.KAdapter || o.Kind == sim.KFifoR || o.Kind == sim.KUDP || o.Kind == sim.KListener)
+			})
+		}
+		if victim != nil && killer != nil {
+			beh := []sim.Behaviour{sim.BCloseOther, sim.BCancelOther, sim.BCancelRestartOther}[r.Intn(3)]
+			startKiller := func() {
+				switch killer.Kind {
+				case sim.KListener:
+					w.StartAccept(killer, beh, victim, false)
+					_ = w.PeerConnect(killer)
+				case sim.KUDP:
+					w.StartPacket(killer, 0, 16, beh, victim, false)
+					w.EnsureUDPPeer(killer)
+					w.PeerWrite(killer, 8)
+				default:
+					w.StartStream(killer, 0, false, 64, beh, victim, false)
+					w.PeerWrite(killer, 10)
+				}
+			}
+			startVictim := func() {
+				w.StartStream(victim, 0, r.Chance(1, 4), 64, sim.BNone, nil, false)
+				w.StartStream(victim, 1, r.Chance(1, 4), []int{1, 64, 1024}[r.Intn(3)], sim.BNone, nil, true)
+				if r.Bool() {
+					w.PeerWrite(victim, 5) // the victim's read is ready in the same batch as well
+				}
+			}
+			c.Logf("constructed batch: %s (read + write in flight) and %s whose handler acts on it", victim, killer)
+			if r.Bool() {
+				startKiller()
+				startVictim()
+			} else {
+				startVictim()
+				startKiller()
+			}
+			c.Count("constructed_batches_victim_with_read_and_write", 1)
+			w.Poll()
+		}
+	}
 	steps := r.Range(10, 60)
 	for s := 0; s < steps && !c.Failed(); s++ {
 		na := r.Range(1, 4)
